@@ -47,6 +47,8 @@ func checkC01(p *Program, r *Result) {
 	checkScratchExclusive(p, r, "C01.s")
 	r.rule("C01.p", "a record filled in place has every field assigned on every successful path; fresh-record wrappers test the decode error", 6)
 	checkPopulateComplete(p, r, "C01.p")
+	r.rule("C01.n", "NextInto replaces a nil message before using it", 2)
+	checkNextIntoNil(p, r, "C01.n")
 	r.rule("C01.h", "chunk header size/CRC/times are those of this chunk: captured before reset, accumulators start fresh (C05.d)", 9)
 	importRule(p, r, "C01.h", func(sub *Result) { checkFlush(p, sub) }, nil)
 }
